@@ -254,7 +254,7 @@ def r4(R):
             el = [x.id for x in a.targets[0].elts]
             fnm = dotted(a.value.func)
             if len(el) == 4 and isinstance(a.value.func, ast.Attribute) and \
-                    a.value.func.attr == 'split':
+                    a.value.func.attr in ('split', 'rsplit'):
                 rec_pos |= {el[1], el[2]}
                 rec_sum.add(el[3])
             elif len(el) == 2 and fnm and 'checksum_and_size' in fnm[-1]:
@@ -494,3 +494,42 @@ def r6(R):
     R.require(rets[0] or vs, 'do_backup has no return')
     for v in vs:
         R.violation(v.node, v.message, g, v.path)
+
+
+@rule('C18.R8', 'the .dat line (`name start end md5`, blank-separated, the '
+      'name first) is read back the way it is written for EVERY file name: '
+      'split from the right into exactly four fields', min_instances=3)
+def r8(R):
+    m = R.prog.module('ZODB.scripts.repozo')
+    n = 0
+    for f in m.functions.values():
+        for a in walk_local(f.node):
+            if not (isinstance(a, ast.Assign) and isinstance(
+                    a.targets[0], ast.Tuple) and len(
+                        a.targets[0].elts) == 4 and isinstance(
+                            a.value, ast.Call) and isinstance(
+                                a.value.func, ast.Attribute) and
+                    a.value.func.attr in ('split', 'rsplit')):
+                continue
+            n += 1
+            R.instance('%s: %s' % (f.name, ast.unparse(a)[:70]))
+            c = a.value
+            maxsplit = None
+            if len(c.args) >= 2 and isinstance(c.args[1], ast.Constant):
+                maxsplit = c.args[1].value
+            for kw in c.keywords:
+                if kw.arg == 'maxsplit' and isinstance(kw.value,
+                                                       ast.Constant):
+                    maxsplit = kw.value.value
+            if not (c.func.attr == 'rsplit' and maxsplit == 3):
+                R.violation(
+                    (f.module.relpath, f.qualname,
+                     ' '.join(ast.unparse(a).split()), a.lineno),
+                    '%s splits the .dat line with `%s`: a repository path '
+                    '(the first field) that contains white space gives more '
+                    'than four fields, so verification, quick backups and '
+                    'recover -w fail on an intact repository' % (
+                        f.name, ast.unparse(c)),
+                    key='.dat line split on every blank')
+    R.require(n >= 3, 'expected the .dat readers of scandat, do_recover '
+              'and do_verify')
